@@ -47,3 +47,7 @@ claim('C20', 'CBMC on the real f_seteuid / f_export_uid with a nondeterministic 
       'Solver-decided from any uid/euid assignment of 3 objects: euid changes only when the master approves (or to 0), uid only by export from a non-zero euid onto a zero-euid object, nothing else changes; with euid 0 (not the master) clone_object and load_object reach no blueprint lookup, file access or allocation.',
       'give_uid_to_object (creator_file policy) is not yet covered; code after the gate is stubbed.',
       'DESIGN.md 5/C20')
+claim('C01', 'CBMC one-step symbolic execution of the real eval_instruction (VM step engine) per opcode and operand-kind case; real error() with an arbitrary vsnprintf result',
+      'Solver-decided per (opcode, operand kinds): from any VM state of the engine shape the step performs no out-of-bounds/null/freed access, no division trap, keeps sp and pc in range, leaves valid tags and the stack unwinds cleanly, or raises an LPC error. Indices of strings/buffers/lvalues and all numeric operands range over all int64; array rvalue indexing uses concrete (size,index) pairs incl. 32-bit truncation values.',
+      'Covered opcodes: index/rindex (rvalue and lvalue), ranges on strings and buffers, arithmetic/comparison/bit/unary operators; efuns, calls, control flow, mappings, multi-step interactions and values longer than 3 are not yet covered. unions compiled as structs (hooks keep punned members in sync).',
+      'DESIGN.md 5/C01')
